@@ -572,6 +572,80 @@ def fit_cases(draw):
 # ------------------------------------------------------------------------------------------
 
 
+def failed_fit_cases():
+    @st.composite
+    def cases(draw):
+        n = draw(st.integers(2, 3))
+        kinds = [draw(st.sampled_from(["non_negative", "non_negative", "bounded", "free"])) for _ in range(n)]
+        return {"n": n, "kinds": kinds, "fixed_nn": draw(st.sampled_from([0.5, 2.0, 3.0])), "seed": draw(st.integers(0, 10**6)),
+                "method": draw(st.sampled_from(["TrustRegionReflection", "Dogbox"])), "k_frac": draw(st.floats(0.15, 0.85)),
+                "max_nfev": draw(st.integers(3, 6))}
+
+    return cases()
+
+
+def prop_failed_fit(c):
+    """Bounds, fixed parameters and non-negativity also hold for the Result of an optimisation that failed half-way
+    (raise_exception=False): the parameters are restored from the history."""
+    import warnings
+
+    from vlib.props import c15
+
+    rates = [0.35 * 2.3**j for j in range(c["n"])]
+    case = c15.base_case(0, c["seed"])
+    case["megacomplexes"]["m1"].update(labels=[f"s{j}" for j in range(c["n"])], rates=[f"r.{j+1}" for j in range(c["n"])])
+    case["parameters"] = {"r": rates, "ds": [c["fixed_nn"]]}
+    case["free"] = [f"r.{j+1}" for j in range(c["n"])]
+    case["datasets"][0]["scale"] = "ds.1"
+    case["non_negative"] = [f"r.{j+1}" for j, k in enumerate(c["kinds"]) if k == "non_negative"] + ["ds.1"]
+    bounds = {f"r.{j+1}": (rates[j] * 0.5, rates[j] * 2.0) for j, k in enumerate(c["kinds"]) if k == "bounded"}
+    from vlib.gen import schemes as _s
+
+    orig = _s.parameter_dict
+
+    def with_bounds(cs):
+        d = orig(cs)
+        for lab, (lo, hi) in bounds.items():
+            g, j = lab.split(".")
+            d[g][int(j) - 1][1].update({"min": lo, "max": hi})
+        return d
+
+    _s.parameter_dict = with_bounds
+    try:
+        with warnings.catch_warnings():
+            warnings.simplefilter("ignore")
+            ff = c15.fault_free(case, c["method"], c["max_nfev"])
+            n = ff["count"]
+            k = 2 + int(c["k_frac"] * (n - 4)) if n > 4 else 2
+            r = c15.run(case, {"kind": "raise_at", "k": k}, c["method"], False, False, c["max_nfev"])
+    finally:
+        _s.parameter_dict = orig
+    if r["outcome"] != "result":
+        raise Discard("no result (fault in post-fit evaluation, known finding D15 of C15)")
+    res = r["result"]
+    check(res.success is False, "failed_fit.success_flag")
+    for p in res.optimized_parameters.all():
+        if p.label == "ds.1":
+            check(p.value == c["fixed_nn"], "failed_fit.fixed_parameter_changed", lambda: f"fixed non-negative {p.label}: {c['fixed_nn']} -> {p.value}")
+        if p.label in bounds:
+            lo, hi = bounds[p.label]
+            check(lo * (1 - 1e-12) <= p.value <= hi * (1 + 1e-12), "failed_fit.result_out_of_bounds", lambda: f"{p.label}={p.value} not in [{lo}, {hi}]")
+        if p.label in case["non_negative"]:
+            check(p.value > 0, "failed_fit.non_negative_not_positive", lambda: f"{p.label}={p.value}")
+    hist = res.parameter_history.to_dataframe()
+    for lab, (lo, hi) in bounds.items():
+        col = hist[lab].values
+        check(bool(np.all((col >= lo * (1 - 1e-12)) & (col <= hi * (1 + 1e-12)))), "failed_fit.history_out_of_bounds", lambda: f"{lab}: {col}")
+    for lab in case["non_negative"]:
+        check(bool(np.all(hist[lab].values > 0)), "failed_fit.history_non_negative", lambda: f"{lab}: {hist[lab].values}")
+    check(bool(np.all(hist["ds.1"].values == c["fixed_nn"])), "failed_fit.history_fixed_changed", lambda: f"{hist['ds.1'].values}")
+    # the restored parameters are an actually evaluated vector (values, not optimiser-space numbers)
+    got = [float(res.optimized_parameters.get(f"r.{j+1}").value) for j in range(c["n"])]
+    good = [e["rates"] for e in r["log"] if e["ok"] and e["k"] < k]
+    check(any(np.allclose(got, g, rtol=1e-12, atol=0) for g in good), "failed_fit.restored_values_never_evaluated", lambda: f"{got} not among {good[-3:]}")
+    return {"nontrivial": "non_negative" in c["kinds"], "tags": sorted(set(c["kinds"])) + [c["method"]]}
+
+
 def selfcheck():
     from glotaran.parameter.parameter import RESERVED_LABELS
 
@@ -605,6 +679,9 @@ PROPERTY = Property(
             doc="arbitrary parameter sets, two of whose parameters are used by the model; capture stub for least_squares"),
         Sub("fits", prop=prop_fit, strategy=fit_cases, budget={"quick": 320, "thorough": 15000},
             doc="all parameters are column rates; history / result / ordering of jacobian, covariance, standard errors"),
+        Sub("failed_fit", prop=prop_failed_fit, strategy=failed_fit_cases, budget={"quick": 240, "thorough": 10000},
+            doc="an injected model fault aborts the optimisation (raise_exception=False): the Result restored from the history still "
+                "respects bounds, fixed values and non-negativity, and holds actual (not optimiser-space) values"),
     ],
     assumptions=[
         "scipy.optimize.least_squares (delegated to by the capture stub) keeps its iterates and finite-difference points within the bounds it is given",
